@@ -2004,6 +2004,25 @@ def check_C12(tier):
                     steps += [S("stop"), ul.wait("bestmove", 3000)]
         steps.append(ul.sync())
         add("protocol", steps, fens=fens)
+    # ---- sessions of an engine WITH an opening book (the repository's small sample book): a time-controlled go on a book position
+    # is answered from the book without a search - still exactly one bestmove per go, a ponder go still waits for its ponderhit /
+    # stop, the first real search afterwards (which grants itself extra time) still answers within its clock
+    outn = nodes[0]
+    ocmd, _ = uci_position_cmd(outn)
+    pre = [S("uci"), ul.wait("uciok", 3000), ul.sync(15000)]
+    for rep in range(1 if quick else 6):
+        bk = [
+            [S("position startpos"), S("go wtime 60000 btime 60000"), ul.wait("bestmove", 8000), S(ocmd), S("go wtime 300 btime 300 movestogo 1"), ul.wait("bestmove", 3000)],
+            [S("position startpos"), S("go ponder wtime 1000 btime 1000"), ul.quiet("bestmove", 120), S("ponderhit"), ul.wait("bestmove", 5000)],
+            [S("position startpos"), S("go ponder wtime 1000 btime 1000"), ul.quiet("bestmove", 120), ul.sync(), S("stop"), ul.wait("bestmove", 3000)],
+            [S("position startpos"), S("go infinite"), ul.quiet("bestmove", 80), S("stop"), ul.wait("bestmove", 3000)],
+            [S("position startpos"), S("go movetime 50"), ul.wait("bestmove", 3000), S("ucinewgame"), S("position startpos"), S("go depth 2"), ul.wait("bestmove", 8000)],
+            [S("position startpos"), S("go wtime 1000 btime 1000 winc 5000 binc 5000"), ul.wait("bestmove", 3000), S("go wtime 1000 btime 1000"), ul.wait("bestmove", 3000),
+             S(ocmd), S("go wtime 200 btime 200 winc 5000 binc 5000"), ul.wait("bestmove", 3000), S(ocmd), S("go wtime 200 btime 200 winc 5000 binc 5000"), ul.wait("bestmove", 3000)],
+        ]
+        for steps in bk:
+            sid = add("book", pre + steps + [ul.sync()])
+            scripts[sid - 1]["book"] = True
     # ---- new-game clause: after ucinewgame a fixed-depth search equals the search of a fresh engine
     ng_nodes = (roots[1:3] + nodes[:2]) if quick else (roots[:20] + nodes[:40])
     for i, n in enumerate(ng_nodes):
@@ -2126,6 +2145,14 @@ def check_C12(tier):
                         disc("position-command", "position/fen-differs/session", sid,
                              {"engine": g_, "specification": e_, "sync_number": j + 1, "commands": prev[:40]})
                         break
+        if m["name"] == "book":
+            traces[sid] = ul.trace_of(ev)
+            # a clock go after the book move must be answered within its clock (250 ms allowance)
+            for gi, e in enumerate(ev):
+                if e["ev"] == "in" and e.get("line", "").startswith("go wtime") and int(e["line"].split()[2]) <= 1000:
+                    bm = [x for x in ev[gi:] if x["ev"] == "out" and x.get("line", "").startswith("bestmove")]
+                    if bm and bm[0]["t_ms"] - e["t_ms"] > int(e["line"].split()[2]) + 250:
+                        disc("clock-overrun", "book/answer-after-the-clock", sid, {"go": e["line"], "ms": bm[0]["t_ms"] - e["t_ms"]})
         if m["name"] == "protocol":
             traces[sid] = ul.trace_of(ev)
             fens = [e.get("line", "") for e in ev if e["ev"] == "fen"]
